@@ -33,7 +33,7 @@ func runC14(c *rt.Ctx) {
 	// released zngio buffers are overwritten (H1): lake code that keeps using a
 	// value after the reader has moved on reads garbage deterministically
 	verifhook.SetPoison(true)
-	c.Note("rule", "case = one lake history on a fresh in-memory lake (object-store or file semantics): exhaustive over all op sequences up to length L over a 9-op alphabet × 4 pool layouts, plus random histories (random pool key k/a.k/this, asc/desc, threshold 1 B…default, seek stride 1 B…default; loads with duplicate, mixed-type, null and missing keys); after every step the branch query multiset, the metadata listing, per-object count/key-range/sortedness, seek-index tiling and pool-key order of the scan (two handles, two parallelisms) are compared with the model; non-trivial = some load produced ≥2 objects and some delete-where rewrote an object partially; distinct by case id")
+	c.Note("rule", "case = one lake history on a fresh in-memory lake (object-store or file semantics): exhaustive over all op sequences up to length L over a 9-op alphabet × 4 pool layouts, plus random histories (random pool key k/a.k/this, asc/desc, threshold 1 B…default, seek stride 1 B…default; loads with duplicate, mixed-type, null and missing keys); after every step the branch query multiset, the metadata listing, per-object count/key-range/sortedness, seek-index tiling and pool-key order of the scan (two handles, two parallelisms) are compared with the model; non-trivial = at some step the branch held ≥2 objects (a scan has to merge) and some delete-where or compaction rewrote objects; distinct by case id")
 	c.Note("assumptions", "pool keys are generated only from numbers, strings, null and missing, for which the harness has its own order (numbers numerically < strings < null/missing)\ndelete-where's reference semantics is a plain in-memory `where` in the sequential runtime")
 	alpha := c14Alphabet()
 	maxLen := c.N(3, 4)
@@ -180,10 +180,14 @@ func c14History(c *rt.Ctx, o *rt.Obs, spec lk.PoolSpec, fileLike bool, ops []lk.
 		problemsToViolations(o, "", step, out.Problems)
 		if out.Err == nil && out.Commit != [20]byte{} {
 			if mc := m.Commits[out.Commit]; mc != nil {
-				if mc.Kind == "load" && len(mc.Adds) >= 2 {
+				// a scan has to merge objects: some load produced ≥2 objects, or the
+				// branch holds ≥2 objects after the step
+				if mc.Kind == "load" && len(mc.Adds) >= 2 || len(m.State(m.Branches[op.Branch])) >= 2 {
 					multiObjLoad = true
 				}
-				if mc.Kind == "delete-where" && len(mc.Adds) > 0 {
+				// objects were rewritten: a delete-where kept part of an object, or a
+				// compaction replaced objects
+				if (mc.Kind == "delete-where" || mc.Kind == "compact") && len(mc.Adds) > 0 {
 					partialRewrite = true
 				}
 			}
